@@ -228,7 +228,7 @@ class Running(State):
         super().save_instance_state(out_state, save_context)
         out_state[self.RUN_FN] = self.run_fn.__name__
         if self._command is not None:
-            out_state[self.COMMAND] = self._command.save()
+            out_state[self.COMMAND] = self._command.save(save_context)
 
     def load_instance_state(self, saved_state: SAVED_STATE_TYPE, load_context: persistence.LoadSaveContext) -> None:
         super().load_instance_state(saved_state, load_context)
